@@ -184,7 +184,53 @@ def extract(repo):
     out["load_word"] = loads[0].value
     _need(len(reserveds) == 1 and isinstance(reserveds[0], ast.Name) and reserveds[0].id == "Reserved",
           "build: expected exactly one  nextTokens[0] not in Reserved")
+    out["loop_writes"], out["count_uses"] = layout_state(cls[0])
     return out
+
+
+LAYOUT_STATE = ("currentCount", "currentFile", "counts", "files", "fileName")
+
+
+def layout_state(cls):
+    """which Builder attributes the read loop writes, and where layout-dependent state (line
+    counter, file objects) is READ by the per-verb methods.  Accepted: only
+    `count=self.currentCount` keyword arguments (the declaration's line number, kept for
+    messages); buildLoad (file switching, modelled).  Anything else: Untranslatable."""
+    fns = {f.name: f for f in cls.body if isinstance(f, ast.FunctionDef)}
+    writes = set()
+    for nm in ("tokenize", "build"):
+        for n in ast.walk(fns[nm]):
+            tg = []
+            if isinstance(n, ast.Assign):
+                tg = n.targets
+            elif isinstance(n, ast.AugAssign):
+                tg = [n.target]
+            for t in tg:
+                if isinstance(t, ast.Attribute) and isinstance(t.value, ast.Name) and t.value.id == "self":
+                    writes.add(t.attr)
+    uses = 0
+    for nm, fn in fns.items():
+        if nm in ("__init__", "tokenize", "build", "buildLoad"):
+            continue
+        ok_nodes = set()
+        for n in ast.walk(fn):
+            if isinstance(n, ast.keyword) and n.arg == "count" and ast.unparse(n.value) == "self.currentCount":
+                ok_nodes.add(id(n.value))
+        for n in ast.walk(fn):
+            if isinstance(n, ast.Attribute) and isinstance(n.value, ast.Name) and n.value.id == "self" \
+                    and n.attr in LAYOUT_STATE:
+                _need(id(n) in ok_nodes, "%s reads layout state self.%s outside a count= argument" % (nm, n.attr))
+                uses += 1
+            # writes of any loop-written attribute outside the loop would make dispatch depend on it
+            tg = []
+            if isinstance(n, ast.Assign):
+                tg = n.targets
+            elif isinstance(n, ast.AugAssign):
+                tg = [n.target]
+            for t in tg:
+                if isinstance(t, ast.Attribute) and isinstance(t.value, ast.Name) and t.value.id == "self":
+                    _need(t.attr not in LAYOUT_STATE, "%s writes layout state self.%s" % (nm, t.attr))
+    return sorted(writes), uses
 
 
 def cstr(s):
@@ -207,6 +253,9 @@ def render(t):
     lines.append("Definition gen_join_sep : list Z := %s." % cstr(t["join_sep"]))
     lines.append("Definition gen_chunk_src : list Z := %s." % cstr(t["chunk_src"]))
     lines.append("Definition gen_last_mode : last_mode := %s." % t["last_mode"])
+    lines.append("(* Builder attributes written by tokenize / the build loop; every other method reads the line")
+    lines.append("   counter only as a count= argument (%d places) and no file state (checked by the translator) *)" % t["count_uses"])
+    lines.append("Definition gen_loop_writes : list (list Z) := [%s]." % "; ".join(cstr(w) for w in t["loop_writes"]))
     return "\n".join(lines) + "\n"
 
 
